@@ -322,6 +322,7 @@ func runC13(r *core.Run) {
 		}
 	})
 	c13Perm(r)
+	c13Deep(r)
 	r.Sample(map[string]any{"triple_example": []string{u[1].Desc, u[n/3].Desc, u[n-2].Desc}})
 }
 
